@@ -494,6 +494,11 @@ func (w *Worktree) AddGlob(pattern string) error {
 
 	var saveIndex bool
 	for _, file := range files {
+		// the repository directory is never part of the worktree content
+		if first, _, _ := strings.Cut(filepath.ToSlash(file), "/"); first == GitDirName {
+			continue
+		}
+
 		fi, err := w.filesystem.Lstat(file)
 		if err != nil {
 			return err
